@@ -65,6 +65,11 @@ def cases(group):
             for spec in REGS:
                 for space in ("feature", "sample"):
                     yield dict(X=X, Y=Y, k=k, reg=spec, space=space)
+                    if spec in ("default", "linreg") and group["label"][0] in "GI":
+                        # integer-typed targets; and ONE estimator walking the mixing grid through set_params on the
+                        # caller's (refilled) buffers
+                        yield dict(X=X, Y=Y, k=k, reg=spec, space=space, y_int=True)
+                        yield dict(X=X, Y=Y, k=k, reg=spec, space=space, walk=True)
                     if k < kmax and spec == "linreg":
                         yield dict(X=X, Y=Y, k=k, reg=spec, space=space, solver="arpack")
 
@@ -113,6 +118,21 @@ def check(case):
     Y = np.array(case["Y"], float)
     k, spec, space = case["k"], case["reg"], case["space"]
     n, m = X.shape
+    if case.get("y_int"):
+        Y = np.round(Y * 2.0)
+    walker = None
+    if case.get("walk"):
+        from skmatter.decomposition import PCovR
+
+        walker = PCovR(mixing=0.5, n_components=k, regressor=pcov.make_regressor(spec, X, Y), space=space, svd_solver=case.get("solver", "full"), random_state=0)
+        bufX = np.ascontiguousarray(pcov.center(X[::-1, ::-1] * 0.6 + 0.25)).copy()
+        bufY = np.ascontiguousarray(Y[::-1] * -0.7).copy()
+        try:
+            walker.fit(bufX, bufY)
+        except Exception as e:
+            return r.fail("crash:%s" % type(e).__name__, "first fit of the walking estimator: %r" % e)
+        bufX[...] = X
+        bufY[...] = Y
     r.states = 0
     r.transitions = 0
     lx_prev = ly_prev = None
@@ -132,7 +152,15 @@ def check(case):
         rankX = ref.rankX
         if ref.condX > 2e3:
             return r.skip("X ill conditioned on its non-zero spectrum")
-        est, exc = pcov.fit_pcovr(X, Y, mixing, k, spec, space, case.get("solver", "full"), regressor_obj=shared)
+        if walker is not None:
+            est, exc = walker, None
+            try:
+                walker.set_params(mixing=mixing)
+                walker.fit(bufX, bufY)
+            except Exception as e:
+                exc = e
+        else:
+            est, exc = pcov.fit_pcovr(X, Y, mixing, k, spec, space, case.get("solver", "full"), regressor_obj=shared, y_int=bool(case.get("y_int")))
         r.transitions += 1
         if exc is not None:
             r.fail("crash:%s" % type(exc).__name__, "mixing=%g: %r" % (mixing, exc))
